@@ -112,6 +112,9 @@ def world_for(case, variant):
     w = {'files': files, 'links': links, 'argv': argv, 'cwd': cwd, 'env': env,
          'encoding': v.get('encoding', 'utf-8'), 'stdout_encoding': v.get('stdout_encoding', 'utf-8'),
          'epoch': v.get('epoch', 1.7e9), 'set_seed': v.get('set_seed'), 'list_seed': v.get('list_seed'),
+         'mtimes': {p: v['mtime_of'](i) for i, p in enumerate(sorted(files))} if callable(v.get('mtime_of')) else (
+             {p: 1.0e9 + (v['mtime_skew'] * (i + 1)) % 9.0e8 for i, p in enumerate(sorted(files))}
+             if v.get('mtime_skew') else {}),
          'dirs': [f'{root}/{d}' for d in dirs] + [cwd], 'step_budget': 4_000_000}
     return w, root
 
@@ -184,6 +187,10 @@ def xproc_run(case, hashseeds, tag):
                     pass
             env = {'PYTHONHASHSEED': str(hs), 'PYTHONPATH': repo_src, 'PYTHONDONTWRITEBYTECODE': '1',
                    'HOME': base + '/home', 'PATH': '/usr/bin:/bin', 'LANG': 'C.UTF-8', 'PYTHONUTF8': '1'}
+            if hs % 3 == 1:
+                env['PYTHONOPTIMIZE'] = str(1 + hs % 2)         # python -O / -OO
+            if hs % 4 == 2:
+                env.update({'LANG': 'C', 'PYTHONUTF8': '0', 'COLUMNS': '30'})
             try:
                 cp = subprocess.run([py, '-m', 'bespokeasm'] + w['argv'][1:], cwd=root, env=env,
                                     capture_output=True, timeout=60)
@@ -292,6 +299,7 @@ def gen_variant(rnd, ndirs, single=None):
         v['stdout_encoding'] = rnd.choice(['ascii', 'latin-1', 'utf-8'])
     if 'epoch' in chosen:
         v['epoch'] = rnd.choice([0.0, 3.0e8, 9.9e8, 1.9e9, 4.4e9, 315532800.0 - 86400 * 400])
+        v['mtime_skew'] = rnd.choice([0, 7.7e7, 1.23e8])      # different (and differently ordered) file timestamps
     if 'pre' in chosen:
         v['pre_image'] = True
     return v
@@ -345,6 +353,17 @@ def explore(subseed, cfg):
         case['inc_dirs'] = progtree.include_dirs(main) + [other]
         ambiguous = True
         pr['ambiguous_include_present'] = 1
+    if len(files) > 1 and not ambiguous and rnd.random() < 0.12:
+        # an include whose exact spelling exists nowhere, next to two differently-cased files with different content
+        # (rejected - in every run, however the directory happens to be listed)
+        inc = files[1]
+        d = (inc['dir'] + '/') if inc['dir'] else ''
+        base_name = inc['name']
+        case['extra_files'] = dict(case.get('extra_files', {}))
+        case['extra_files'][d + base_name.capitalize()] = ['  .byte $71']
+        case['extra_files'][d + base_name.replace('.asm', '.ASM')] = ['  .byte $72, $73']
+        main['items'].insert(2, {'t': 'line', 's': f'#include "{base_name.upper()}"', 'r': ''})
+        pr['include_with_case_variants_only'] = 1
     ndirs = len(case.get('inc_dirs', progtree.include_dirs(main)))
     wdig = H((case['isa_text'], str(progtree.split_files(main)))) & 0xFFFFFFFF
 
